@@ -6,6 +6,7 @@ import Driver.Util
 mode `array`:  `<len> <ranks> <default> | tok tok …`
   tokens  `s:i:v p:i:v m:i:v x:i:v d:i:v a:i:v o:i:v e:i:v A:i:v O:i:v +:i -:i v:i:k`  updates (in execution order)
           `C` copy array 0 into array 1   `T:n` select target   `F` dump (index:value per rank)   `V` dump values
+          `Z:len[:fill]` resize
   answer  dumps joined by ` # `; a dump = ranks joined by `|`; `trap` as soon as an update fails.
 
 mode `bag`:    `<ranks> | tok tok …`
@@ -16,7 +17,7 @@ mode `bag`:    `<ranks> | tok tok …`
           `D` dump bags   `K` dump rebalance plan keys (`t=count` per rank)   `g:dest:order`   `a:order`
           sched/order: `-` = identity, `@` + observed vectors = derive, else comma list; ords: `desc` | `asc` | lists joined by `/`; dests: lists joined by `/`
   answer  dumps joined by ` # `; `trap` when an operation fails.
-            `tb <ranks> | i:r:x V:t:k E:t D g:t,t,..`   the tagged bag: answers tags / dumps.
+            `tb <ranks> | i:r:x V:t:k E:t D g:t,t,.. T:n S`   two tagged bags (`T:n` selects, `S` swaps): answers tags / dumps.
 -/
 namespace Driver.Arr
 open Driver
@@ -74,6 +75,9 @@ def arrayTok (s : AState) (tok : String) : AState :=
   | ["V"] => match s.target with
     | some a => { s with outs := s.outs ++ [dumpVals a] }
     | none => { s with trapped := true }
+  | "Z" :: n :: rest => match n.toNat?, s.target with
+    | some n, some a => s.put (resize a n (match rest.head?.bind (·.toNat?) with | some f => u64 f | none => a.dv))
+    | _, _ => { s with trapped := true, outs := s.outs ++ ["bad-op"] }
   | c :: i :: rest =>
     match i.toNat?, parseOp c ((rest.head?.bind (·.toNat?)).getD 0), s.target with
     | some i, some op, some a =>
@@ -286,12 +290,18 @@ def bagTok (s : BState) (tok : String) : BState :=
 /-- tagged bag script -/
 structure TState where
   tb : TBag Nat
+  other : TBag Nat      -- the second tagged bag (`T:n` selects, `S` swaps)
+  cur : Nat
   outs : List String
 
 def tbTok (s : TState) (tok : String) : TState :=
   match tok.splitOn ":" with
+  | ["T", n] =>
+    let n := n.toNat?.getD 0
+    if n = s.cur then s else { s with tb := s.other, other := s.tb, cur := n }
+  | ["S"] => let p := TBag.swap s.tb s.other; { s with tb := p.1, other := p.2 }
   | ["i", r, x] => match r.toNat?, x.toNat? with
-    | some r, some x => let p := s.tb.insert r x; { tb := p.1, outs := s.outs ++ [s!"tag {p.2}"] }
+    | some r, some x => let p := s.tb.insert r x; { s with tb := p.1, outs := s.outs ++ [s!"tag {p.2}"] }
     | _, _ => { s with outs := s.outs ++ ["bad-op"] }
   | ["V", t, k] => match t.toNat?, k.toNat? with
     | some t, some k => { s with tb := s.tb.visitIfExists t (fun v => (v + k) % 2 ^ 64) }
@@ -314,7 +324,8 @@ def handleBag (line : String) : String :=
   | [hd, script] =>
     match words hd with
     | ["tb", ranks] =>
-      let s := (words script).foldl tbTok { tb := TBag.empty (ranks.toNat?.getD 0), outs := [] }
+      let s := (words script).foldl tbTok { tb := TBag.empty (ranks.toNat?.getD 0), other := TBag.empty (ranks.toNat?.getD 0),
+                                            cur := 0, outs := [] }
       " # ".intercalate s.outs
     | [ranks] =>
       match ranks.toNat? with
